@@ -46,6 +46,12 @@ func (r *BatchedTokenRequest) Unmarshal(data []byte) bool {
 	if offset < 0 || l > uint64(len(data)-offset) {
 		return false
 	}
+	if l == 0 {
+		// A batch carries at least one request (the client refuses to build an empty one)
+		return false
+	}
+	// The declared length bounds the list: bytes behind it are not part of any request
+	data = data[:offset+int(l)]
 
 	r.token_requests = make([]tokens.TokenRequestWithDetails, 0)
 	i := offset
